@@ -372,7 +372,10 @@ def check_uses_dask(rep, ddf, frames, meta):
         rep.evaluations += 1
         rep.nontrivial(('pack', name, len(frames), tuple(h for _v, h in wantp)))
         if gotp != wantp or packed.index.name != 'hilbert_distance':
-            rep.violation('uses:pack', f'pack_partitions did not key on the active column {name!r}',
+            again = ddf.index.name == 'hilbert_distance'
+            rep.violation('uses:repack' if again else 'uses:pack',
+                          f'pack_partitions did not key on the active column {name!r}'
+                          + (' (frame was already packed: index named hilbert_distance)' if again else ''),
                           {**meta, 'got': gotp, 'want': wantp})
 
 
@@ -786,6 +789,22 @@ def corpus(rep):
                       {'meta_geometry': c._meta._geometry, 'rows': rows, 'want_rows': [0, 0, 1, 1, 2, 2, 3, 3],
                        'repro': "df=GeoDataFrame({'a':pts(i,i),'v':range(8),'b':pts(100+i,100+i)}).set_geometry('b'); "
                                 "c=dd.concat([dd.from_pandas(df,2)]*2); c.cx[100:103,100:103].compute()"})
+    # packing an already packed frame by another column
+    df2 = GeoDataFrame({'a': PointArray([[i, i] for i in range(n)]), 'v': np.arange(n),
+                        'b': PointArray([[(i + 3) % n, (i + 3) % n] for i in range(n)])})
+    p1 = dd.from_pandas(df2, npartitions=2).pack_partitions(npartitions=2, p=4)
+    p2 = p1.set_geometry('b').pack_partitions(npartitions=2, p=4).compute(scheduler='synchronous')
+    want_h = df2['b'].hilbert_distance(total_bounds=df2['b'].total_bounds, p=4)
+    wantp = sorted(zip(df2['v'].tolist(), [int(h) for h in want_h.tolist()]))
+    gotp = sorted(zip(p2['v'].tolist(), [int(h) for h in p2.index.tolist()]))
+    rep.evaluations += 1
+    rep.nontrivial('corpus:repack')
+    if gotp != wantp or list(p2.columns) != ['a', 'v', 'b']:
+        rep.violation('uses:repack', 'pack_partitions of an already packed frame (index named hilbert_distance) '
+                                     'after set_geometry kept the old Hilbert key',
+                      {'got': gotp, 'want': wantp, 'columns': [str(c) for c in p2.columns],
+                       'repro': "p1=dd.from_pandas(df,2).pack_partitions(npartitions=2,p=4); "
+                                "p1.set_geometry('b').pack_partitions(npartitions=2,p=4).compute().index"})
     m = ddf.map_partitions(lambda d: d)
     rep.evaluations += 1
     if m._meta._geometry != 'b':
